@@ -1,7 +1,7 @@
 //vf:pkg github.com/saucelabs/forwarder/header
 package header
 
-//vf:assume C16-apply: header names are a-b/abc/xyz and prefixes a/a-/ab/x, each letter in symbolic case (solver-decided); field values are distinct concrete strings; maps of <=2 keys, lists of <=2 (quick) / <=3 (thorough) rules
+//vf:assume C16-apply: header names are a-b/abc/xyz and prefixes a/a-/ab/x, each letter in symbolic case (solver-decided); field values are distinct concrete strings; maps of <=2 keys, lists of <=2 rules (thorough: <=3 rules when the map has one key; 3 rules over 2 keys did not finish in 25 minutes and is outside)
 //vf:assume C16-apply: per case-insensitive name the multiset of values is compared; the value order and the key spelling only when a single spelling of that name is present
 
 import (
@@ -147,8 +147,8 @@ func vfH_C16_apply() {
 	}
 	// rule list
 	maxRules := 2
-	if vfrt.Thorough() {
-		maxRules = 3
+	if vfrt.Thorough() && nkeys == 1 {
+		maxRules = 3 // three rules over one field (three rules over two fields did not finish in 25 minutes)
 	}
 	nr := 1 + vfrt.Choice("rules", maxRules)
 	var names []string
